@@ -103,6 +103,9 @@ func (c *config) UnmarshalXML(d *xml.Decoder, start xml.StartElement) error {
 	iter := xmlstream.NewIter(d)
 	for iter.Next() {
 		start, r := iter.Current()
+		if start == nil {
+			continue
+		}
 		switch start.Name.Local {
 		case "history":
 			for _, attr := range start.Attr {
